@@ -13,6 +13,9 @@ import (
 const DefaultRetryCount uint8 = 3
 
 func (m *ForwardMetadata) Validate() error {
+	if m == nil {
+		return fmt.Errorf("failed to validate metadata. forward metadata cannot be nil")
+	}
 	if m.Receiver == "" {
 		return fmt.Errorf("failed to validate metadata. receiver cannot be empty")
 	}
@@ -27,21 +30,36 @@ func (m *ForwardMetadata) Validate() error {
 }
 
 func (m *SwapMetadata) Validate() error {
+	if m == nil {
+		return fmt.Errorf("swap metadata cannot be nil")
+	}
 	if err := m.Route.Validate(); err != nil {
 		return err
 	}
 	switch amountStrategy := m.AmountStrategy.(type) {
 	case *SwapMetadata_ExactAmountIn:
+		if amountStrategy.ExactAmountIn == nil || amountStrategy.ExactAmountIn.MinAmountOut.IsNil() {
+			return fmt.Errorf("min amount out must be set")
+		}
 		if !amountStrategy.ExactAmountIn.MinAmountOut.IsPositive() {
 			return fmt.Errorf("min amount out must be positive")
 		}
 
 	case *SwapMetadata_ExactAmountOut:
+		if amountStrategy.ExactAmountOut == nil || amountStrategy.ExactAmountOut.AmountOut.IsNil() {
+			return fmt.Errorf("amount out must be set")
+		}
+		if !amountStrategy.ExactAmountOut.AmountOut.IsPositive() {
+			return fmt.Errorf("amount out must be positive")
+		}
 		if amountStrategy.ExactAmountOut.Change != nil {
 			if err := amountStrategy.ExactAmountOut.Change.Validate(); err != nil {
 				return err
 			}
 		}
+
+	default:
+		return fmt.Errorf("amount strategy must be set")
 	}
 
 	if m.Forward != nil {
